@@ -37,8 +37,9 @@ contract(UTIL, 'resolve_dtype',
 
 # ---------------------------------------------------------------------------------------------
 # TypeBlocks: the column directory invariant Dir(tb)  (DESIGN §3 C03)
+# _offs is GHOST: prefix column offsets (offs[k] = first column of block k, offs[len(blocks)] = column count)
 RECORDS['TypeBlocks'] = dict(_blocks='list[arr]', _index='list[tuple[int,int]]', _dtypes='list[dtype]',
-                     _shape='tuple[int,int]', _row_dtype='opt[dtype]')
+                     _shape='tuple[int,int]', _row_dtype='opt[dtype]', _offs='list[int]')
 
 # local (successor) characterisation of the directory: no ghost offsets needed
 predicate('Dir', ['tb'], ' and '.join([
@@ -51,6 +52,9 @@ predicate('Dir', ['tb'], ' and '.join([
     'forall_in(0, len(tb._index) - 1, lambda c: (at(tb._index, c + 1)[0] == at(tb._index, c)[0] and at(tb._index, c + 1)[1] == at(tb._index, c)[1] + 1) or (at(tb._index, c + 1)[0] == at(tb._index, c)[0] + 1 and at(tb._index, c + 1)[1] == 0 and at(tb._index, c)[1] == W(at(tb._blocks, at(tb._index, c)[0])) - 1))',
     'implies(len(tb._index) > 0, at(tb._index, 0)[0] == 0 and at(tb._index, 0)[1] == 0 and at(tb._index, len(tb._index) - 1)[0] == len(tb._blocks) - 1 and at(tb._index, len(tb._index) - 1)[1] == W(at(tb._blocks, len(tb._blocks) - 1)) - 1)',
     'implies(len(tb._index) == 0, len(tb._blocks) == 0)',
+    # ghost prefix offsets agree with the directory
+    'len(tb._offs) == len(tb._blocks) + 1 and at(tb._offs, 0) == 0 and at(tb._offs, len(tb._blocks)) == tb._shape[1]',
+    'forall_in(0, len(tb._blocks), lambda k: at(tb._offs, k + 1) == at(tb._offs, k) + W(at(tb._blocks, k)) and 0 <= at(tb._offs, k) and at(tb._offs, k + 1) <= tb._shape[1])',
 ]))
 predicate('Frozen', ['tb'], 'forall_in(0, len(tb._blocks), lambda k: not at(tb._blocks, k).writeable)')
 predicate('RowDtypeHolds', ['tb'], 'implies(len(tb._blocks) > 0, not is_none(tb._row_dtype) and forall_in(0, len(tb._blocks), lambda k: at(tb._blocks, k).dtype == tb._row_dtype or tb._row_dtype == DTYPE_OBJECT))')
@@ -65,9 +69,10 @@ contract(TB, 'TypeBlocks.append',
     # all-or-nothing: a mis-sized block is rejected before any write
     raises={'RuntimeError': 'block.rows != self._shape[0]'},
     raise_ensures=['self == old(self)'],
+    ghost_after={'self._blocks.append(immutable_filter(block))': ['self._offs.append(self._shape[1])']},
     n_loops=1,
     loops={0: dict(index='t', invariant=[
-        'self._blocks == old(self._blocks) and self._row_dtype == old(self._row_dtype)',
+        'self._blocks == old(self._blocks) and self._row_dtype == old(self._row_dtype) and self._offs == old(self._offs)',
         f'self._shape[0] == old(self._shape[0]) and self._shape[1] == {_OLDN} + W(block)',
         f'len(self._index) == {_OLDN} + t and len(self._dtypes) == {_OLDN} + t',
         f'forall_in(0, {_OLDN}, lambda c: at(self._index, c) == at(old(self._index), c) and at(self._dtypes, c) == at(old(self._dtypes), c))',
